@@ -283,4 +283,75 @@ theorem loopinv_apply (g : G) (a : Action) (h : LoopInv g) (hp : PInv g) :
 theorem loopinv_init (p : Policy) : LoopInv { wait := p } :=
   ⟨fun _ => rfl, by intro j hj; simp at hj⟩
 
+theorem stop_mono_runJoiner (perm : List Nat) : ∀ (fuel : Nat) (g : G), g.fixed = true → LInv g →
+    PInv g → g.stopPopped = true → (g.runJoiner perm fuel).1.stopPopped = true
+  | 0, _, _, _, _, h => h
+  | fuel + 1, g, hfix, hl, hp, h => by
+    unfold G.runJoiner
+    cases hs : g.joinerStep perm with
+    | none => exact h
+    | some r =>
+      obtain ⟨g1, o1⟩ := r
+      obtain ⟨j, hj, _, hstep⟩ := joinerStep_inv hfix hs
+      have hfix1 : g1.fixed = true := by
+        have := (tstep_jstep hstep).fixed_eq; simp only [G.core] at this; rw [this, hfix]
+      exact stop_mono_runJoiner perm fuel g1 hfix1 (linv_joinerStep g perm hl hs)
+        (pinv_joinerStep g perm hl hp hs) (stop_mono_jstep hp hstep h)
+
+/-- **the loop is not left early** (no competing consumer): a joiner that is in the `next_done`
+loop of a waiting policy while some member is pending is still in the loop when its algorithm
+comes to rest - unless a member it popped meanwhile met the stop condition -/
+theorem stay_in_loop (perm : List Nat) : ∀ (fuel : Nat) (g : G), g.fixed = true → TInv g.core →
+    LInv g → PInv g → NInv g → JInv g →
+    ∀ j, g.joiner = some j → j.phase = .next → g.wait ≠ .nowait → g.pending ≠ [] →
+    (g.runJoiner perm fuel).1.stopPopped = false →
+    ∃ j', (g.runJoiner perm fuel).1.joiner = some j' ∧ j'.phase = .next
+  | 0, g, _, _, _, _, _, _ => fun j hj hp _ _ _ => ⟨j, hj, hp⟩
+  | fuel + 1, g, hfix, ht, hl, hpi, hn, hji => by
+    intro j hj hph hw hpend hstop
+    unfold G.runJoiner at hstop ⊢
+    cases hs : g.joinerStep perm with
+    | none => exact ⟨j, hj, hph⟩
+    | some r =>
+      obtain ⟨g1, o1⟩ := r
+      simp only [hs] at hstop ⊢
+      obtain ⟨j0, hj0, hb, hstep⟩ := joinerStep_inv hfix hs
+      rw [hj] at hj0; simp only [Option.some.injEq] at hj0; subst hj0
+      have hts := tstep_jstep hstep
+      have hfix1 : g1.fixed = true := by
+        have := hts.fixed_eq; simp only [G.core] at this; rw [this, hfix]
+      have ht1 := hts.preserves ht
+      have hl1 := linv_joinerStep g perm hl hs
+      have hpi1 := pinv_joinerStep g perm hl hpi hs
+      have hn1 := ninv_jstep hj hb hn hstep
+      have hji1 := jinv_jstep hj hb hji ht hstep
+      have ih := stay_in_loop perm fuel g1 hfix1 ht1 hl1 hpi1 hn1 hji1
+      cases hstep with
+      | crSweep hp' _ => rw [hph] at hp'; cases hp'
+      | crDone _ hp' _ _ => rw [hph] at hp'; cases hp'
+      | finExit hp' _ _ => rw [hph] at hp'; cases hp'
+      | finSweep hp' _ _ => rw [hph] at hp'; cases hp'
+      | finClear _ hp' _ _ => rw [hph] at hp'; cases hp'
+      | nowait _ _ hw' => exact absurd hw' hw
+      | nothingLeft _ _ _ _ hp0 => exact absurd hp0 hpend
+      | park _ _ _ _ _ => exact ih _ rfl hph hw hpend hstop
+      | acquire _ _ _ _ _ _ => exact ih _ rfl hph hw hpend hstop
+      | pop _ hperm =>
+        have hsem := hn.sem
+        simp only [hpNat, hj, hperm, ↓reduceIte] at hsem
+        cases hd : g.doneq with
+        | nil => rw [hd] at hsem; simp at hsem
+        | cons t rest =>
+          rw [joinerPop_cons j hd] at hstop ih hfix1 hl1 hpi1 ⊢
+          simp only [] at hstop ih hfix1 hl1 hpi1 ⊢
+          by_cases hst : g.stopAfter t rest = true
+          · exfalso
+            have h1 : (setJ (g.popT t rest)
+                { j with phase := if g.stopAfter t rest then .fin else .next,
+                         hasPermit := false }).stopPopped = true := by
+              rw [stopPopped_popT]; exact stopAfter_imp g t rest hpi hw hst
+            have := stop_mono_runJoiner perm fuel _ hfix1 hl1 hpi1 h1
+            rw [this] at hstop; cases hstop
+          · exact ih _ rfl (by simp [hst]) hw hpend hstop
+
 end Aiorpcx.C09
